@@ -250,6 +250,9 @@ def islands_world(variant):
     w = W.base_world(1, 12000)
     ex = [[2001 + 600 * i, 2200 + 600 * i] for i in range(6)]
     w["genes"].append({"id": "GI", "chr": "chr1", "strand": "+", "transcripts": [{"id": "TI", "exons": ex}]})
+    if variant == 3:
+        # the reference is an earlier IsoQuant output: its transcripts already carry a (here: wrong) Canonical attribute
+        w["genes"][0]["transcripts"][0]["attrs"] = {"Canonical": "False"}
     if variant == 1:
         w["genes"].append({"id": "GE", "chr": "chr1", "strand": "+", "transcripts": [{"id": "TE", "exons": [[1, 300], [601, 900], [1201, 1500]]}]})
     syn.plant_for_transcripts(w)
@@ -378,6 +381,11 @@ def pipeline_case(args):
         p = os.path.join(out, "OUT", fn)
         if not os.path.exists(p):
             continue
+        for l in open(p):
+            if "\ttranscript\t" in l and l.count('Canonical "') > 1:
+                errs.append(("model-canonical-twice:" + fn.split(".")[1], "%s: a transcript record carries several Canonical attributes: %s" %
+                             (fn, l.strip().split("\t")[8][:160])))
+                break
         ts = run.gtf_transcripts(run.parse_gtf(p))
         for tid, t in ts.items():
             ex = sorted(t["exons"])
@@ -455,7 +463,7 @@ def run(ctx):
     n = 3 if quick else 4
     orders = sorted(set(itertools.product("lr", repeat=n)) - {("l",) * n, ("r",) * n})
     jobs = [("anti", o, ctx.scratch) for o in orders] + [("antinovel", (v, lvl), ctx.scratch) for v in (0, 1, 2) for lvl in ("all", "auto")] + \
-        [("islands", (v, lvl), ctx.scratch) for v in (0, 1, 2) for lvl in ("auto", "all")] + \
+        [("islands", (v, lvl), ctx.scratch) for v in (0, 1, 2, 3) for lvl in ("auto", "all")] + \
         [("mixed", (n, lvl), ctx.scratch) for n in ((2,) if quick else (1, 2, 3)) for lvl in ("auto", "all")] + \
         [("shared", (mf, wk, rf, lvl), ctx.scratch) for mf in (0, 1) for wk in (0, 1) for rf in (0, 1) for lvl in ("all", "auto")] + [("novel", lvl + sw, ctx.scratch) for lvl in ("auto", "only_canonical", "only_stranded", "all") for sw in ("", "/swap", "/nopolya")]
     nchecked = 0
